@@ -32,11 +32,9 @@ Definition get_cached_regex (p : str) : prog (outcome unit) :=
     else if re_valid E p then RegexPut p (Ret (Ok tt)) else Ret Err).
 
 (* ascii fast paths *)
-Definition ascii_reverse (s : str) : option str := if is_ascii s then Some (rev s) else None.
+Definition ascii_reverse (s : str) : option str := if is_ascii s then Some (frev s) else None.
 Definition ascii_trim (s : str) : option str :=
   if is_ascii s then Some (trim_with is_ws TBoth s) else None.   (* s.trim() after fix 0a01f1f *)
-
-Definition lift_range {T} (r : outcome (list T)) : outcome (list T) := r.
 
 Definition impl_replace (pat repl flags s : str) : prog (outcome str) :=
   if (negb (existsb (fun f => mem_cp f flags) replace_shortcut_blockers)
@@ -70,7 +68,7 @@ Definition impl_single (o : op) (v : value) (sep : str) : prog (outcome (value *
              | VList l => pbind (pmapM (fun s => get_cached_split s sp) l) (fun ps => Ret (concat ps))
              end) (fun parts =>
       (* *default_sep = get_interned_separator(sep) : the same text *)
-      ret_o (bind (apply_range parts r) (fun result =>
+      ret_o (bind (Ok (apply_range_m parts r)) (fun result =>
         match r with
         | Index _ =>
             match result with
@@ -83,7 +81,7 @@ Definition impl_single (o : op) (v : value) (sep : str) : prog (outcome (value *
   | Join sp => ret_o (Ok (match v with VList l => VStr (join sp l) | VStr s => VStr s end, sp))
   | Slice r =>
       ret_o (match v with
-             | VList l => bind (apply_range l r) (fun l' => Ok (VList l', sep))
+             | VList l => bind (Ok (apply_range_m l r)) (fun l' => Ok (VList l', sep))
              | VStr _ => Err
              end)
   | Filter p =>
@@ -102,21 +100,21 @@ Definition impl_single (o : op) (v : value) (sep : str) : prog (outcome (value *
               end, sep))))
   | Sort d =>
       ret_o (match v with
-             | VList l => Ok (VList (match d with Asc => sort_asc l | Desc => rev (sort_asc l) end), sep)
+             | VList l => Ok (VList (match d with Asc => sort_asc l | Desc => frev (sort_asc l) end), sep)
              | VStr _ => Err
              end)
   | Reverse =>
       ret_o (Ok (match v with
-                 | VStr s => VStr (match ascii_reverse s with Some r => r | None => rev s end)
-                 | VList l => VList (rev l)
+                 | VStr s => VStr (match ascii_reverse s with Some r => r | None => frev s end)
+                 | VList l => VList (frev l)
                  end, sep))
   | Unique => ret_o (match v with VList l => Ok (VList (unique l), sep) | VStr _ => Err end)
   | Substring r =>
       ret_o (match v with
              | VStr s =>
                  if is_ascii s
-                 then bind (apply_range (utf8 s) r) (fun bytes => Ok (VStr bytes, sep))
-                 else bind (apply_range s r) (fun cs => Ok (VStr cs, sep))
+                 then bind (Ok (apply_range_m (utf8 s) r)) (fun bytes => Ok (VStr bytes, sep))
+                 else bind (Ok (apply_range_m s r)) (fun cs => Ok (VStr cs, sep))
              | VList _ => Err
              end)
   | Replace pat repl flags =>
